@@ -81,7 +81,7 @@ theorem push_raised : ∀ (x : SVal) (b : B), Raised ext (positions b) (CallsOf 
         (fun s s' h => (pushStructOps_takeRest ext ops _ s' h).trans (SSkel.next s _))
     | map p mm v offs ks vs =>
       exact Raised.bind (NoCtx.raised _) fun _ _ => Raised.bind (NoCtx.raised _) fun _ _ =>
-        Raised.bind (Raised.mono map_sub_k' (fun c h => h.imp Sub.mapRaw id) (pushMapOps_raised ops _ ks vs)) fun _ _ =>
+        Raised.bind (Raised.mono map_sub_k' (fun c h => h.imp Sub.mapRaw id) (pushMapOps_raised ops false _ ks vs)) fun _ _ =>
           Raised.of_ok _
     | unknownVariant _ => exact NoCtx.raised _
     | _ => exact NoCtx.raised _
@@ -239,20 +239,28 @@ theorem pushMapEntries_raised : ∀ (es : SEntries) (offs : List Int) (ks vs : B
     have e1 := positions_of_takeRest (push_takeRest ext k ks ks' hk)
     have e2 := positions_of_takeRest (push_takeRest ext x vs vs' hv)
     exact e1 ▸ e2 ▸ Raised.monoC (fun c h => h.imp SubE.tail id) (pushMapEntries_raised rest _ ks' vs')
-theorem pushMapOps_raised : ∀ (ops : SMapOps) (offs : List Int) (ks vs : B),
-    Raised ext (positions ks ++ positions vs) (CallsOfO ops) (pushMapOps ext offs ks vs ops)
-  | .nil, offs, ks, vs => by rw [pushMapOps]; exact Raised.of_ok _
-  | .key k rest, offs, ks, vs => by
+theorem pushMapOps_raised : ∀ (ops : SMapOps) (pend : Bool) (offs : List Int) (ks vs : B),
+    Raised ext (positions ks ++ positions vs) (CallsOfO ops) (pushMapOps ext pend offs ks vs ops)
+  | .nil, pend, offs, ks, vs => by
     rw [pushMapOps]
-    refine Raised.bind (NoCtx.raised _) fun _ _ =>
-      Raised.bind (Raised.mono (fun q hq => List.mem_append_left _ hq) (fun c h => h.imp SubO.key id) (push_raised k ks)) fun ks' hk => ?_
-    exact positions_of_takeRest (push_takeRest ext k ks ks' hk) ▸
-      Raised.monoC (fun c h => h.imp SubO.keyTail id) (pushMapOps_raised rest _ ks' vs)
-  | .value x rest, offs, ks, vs => by
+    split
+    · exact NoCtx.raised _
+    · exact Raised.of_ok _
+  | .key k rest, pend, offs, ks, vs => by
     rw [pushMapOps]
-    refine Raised.bind (Raised.mono (fun q hq => List.mem_append_right _ hq) (fun c h => h.imp SubO.value id) (push_raised x vs)) fun vs' hv => ?_
-    exact positions_of_takeRest (push_takeRest ext x vs vs' hv) ▸
-      Raised.monoC (fun c h => h.imp SubO.valueTail id) (pushMapOps_raised rest _ ks vs')
+    split
+    · exact NoCtx.raised _
+    · refine Raised.bind (NoCtx.raised _) fun _ _ =>
+        Raised.bind (Raised.mono (fun q hq => List.mem_append_left _ hq) (fun c h => h.imp SubO.key id) (push_raised k ks)) fun ks' hk => ?_
+      exact positions_of_takeRest (push_takeRest ext k ks ks' hk) ▸
+        Raised.monoC (fun c h => h.imp SubO.keyTail id) (pushMapOps_raised rest true _ ks' vs)
+  | .value x rest, pend, offs, ks, vs => by
+    rw [pushMapOps]
+    split
+    · exact NoCtx.raised _
+    · refine Raised.bind (Raised.mono (fun q hq => List.mem_append_right _ hq) (fun c h => h.imp SubO.value id) (push_raised x vs)) fun vs' hv => ?_
+      exact positions_of_takeRest (push_takeRest ext x vs vs' hv) ▸
+        Raised.monoC (fun c h => h.imp SubO.valueTail id) (pushMapOps_raised rest false _ ks vs')
 end
 
 end SaModel.Props.C18
